@@ -379,15 +379,15 @@ def execute(case):
         over = float(np.max(y - x))
         maxover = max(maxover, over)
         if over > half + TOL_OVER:
-            report('overshoot', {'sign': sign, 'ns': ns},
+            report('overshoot', {'sign': sign},
                    {'field': x, 'got': y, 'max_y_minus_x': over, 'bound_sqrt_eps_half': half}, narrowed(k))
         sup_solid, unsup = ro.classify(shape, dim, x.tolist(), axis, sgn, ns)
         if sup_solid and float(np.min(y[sup_solid])) < 1.0 - TOL_SOLID:
-            report('supported_solid', {'sign': sign, 'ns': ns},
+            report('supported_solid', {'sign': sign},
                    {'field': x, 'got': y, 'supported_solid_elements': sup_solid, 'min': float(np.min(y[sup_solid]))},
                    narrowed(k))
         if unsup and float(np.max(y[unsup])) > half + TOL_UNSUP:
-            report('unsupported_removed', {'sign': sign, 'ns': ns},
+            report('unsupported_removed', {'sign': sign},
                    {'field': x, 'got': y, 'unsupported_elements': unsup, 'max': float(np.max(y[unsup])),
                     'bound': half + TOL_UNSUP}, narrowed(k))
 
@@ -410,7 +410,7 @@ def execute(case):
             yexp[perm] = y
             e, b = alg_err(yt, yexp, scale=1.0)
             if not e <= b:
-                report('covariance', {'map': role, 'ns': ns},
+                report('covariance', {'map': role},
                        {'map': name, 'direction': dname, 'mapped_direction': tdir, 'field': x, 'result': y,
                         'mapped_field': xt, 'result_on_mapped_field': yt, 'mapped_result': yexp, 'max_abs_diff': e},
                        narrowed(k, mp=name))
